@@ -72,7 +72,7 @@ const POOL: &[&str] = &[
     // boxes, structs, ports, misc
     "(box 1)", "(C07S 1 2)", "(open-input-string \"abc def\")", "(open-output-string)", "void", "(eof-object)",
     "(with-handler (lambda (e) e) (error \"x\"))", "(Some 1)", "(Err 2)", "empty-stream", "(mapping (lambda (x) x))",
-    "(make-weak-box (list 1))", "(mutex)", "(instant/now)", "c07-mv", "(new-reader)", "(string->jsexpr \"{\\\"a\\\": [1, 2.5, null]}\")",
+    "(make-weak-box (list 1))", "(mutex)", "(instant/now)", "c07-mv", "(string->jsexpr \"{\\\"a\\\": [1, 2.5, null]}\")",
 ];
 
 const PRELUDE: &str = r#"
@@ -330,7 +330,10 @@ fn new_engine() -> Engine {
     });
     match eval(&mut e, PRELUDE.to_string()) {
         Out::Ok(_) => {}
-        _ => emit("FATAL prelude failed"),
+        _ => {
+            emit("FATAL prelude failed");
+            std::process::exit(5);
+        }
     }
     let _ = eval(&mut e, DEFINE_K.to_string());
     e
@@ -517,8 +520,14 @@ fn sweep_engine() -> Engine {
     for src in [make_pool_src(), SWEEP.to_string()] {
         match eval(&mut e, src) {
             Out::Ok(_) => {}
-            Out::Err(x) => emit(&format!("FATAL sweep prelude: {}", x)),
-            Out::Panic(x) => emit(&format!("FATAL sweep prelude panic: {}", x)),
+            Out::Err(x) => {
+                emit(&format!("FATAL sweep prelude: {}", x));
+                std::process::exit(5);
+            }
+            Out::Panic(x) => {
+                emit(&format!("FATAL sweep prelude panic: {}", x));
+                std::process::exit(5);
+            }
         }
     }
     e
